@@ -731,6 +731,13 @@ fn main() {
                 let data = gen_data(r, &shape, depth);
                 writeln!(out, "rt {} ; {}\t{}", shape.to_text(), data.to_text(false), run_rt(&shape, &data)).unwrap();
             }
+            for line in X_ANCHORS {
+                let parts: Vec<&str> = line.split(" ; ").collect();
+                let shape = parse_shape(&mut Toks::new(parts[0])).unwrap();
+                let data = parse_dyn(&mut Toks::new(parts[1])).unwrap();
+                let shape2 = parse_shape(&mut Toks::new(parts[2])).unwrap();
+                writeln!(out, "x {} ; {} ; {}\t{}", shape.to_text(), data.to_text(false), shape2.to_text(), run_cross(&shape, &data, &shape2)).unwrap();
+            }
             for i in 0..n_x {
                 let depth = 1 + (i % 3) as u32;
                 let shape = gen_shape(r, depth);
@@ -855,6 +862,9 @@ fn mutate_shape(r: &mut Rng, s: &Shape) -> Shape {
             }
             if r.chance(1, 4) {
                 Shape::Map(Box::new(Shape::Str), Box::new(v.first().map(|x| x.1.clone()).unwrap_or(Shape::U8)))
+            } else if r.chance(1, 4) && !fs.is_empty() {
+                // a struct value read as an enum whose variants are named like the fields
+                Shape::Enum("E", fs.iter().map(|f| (f.0, VShape::Newtype(f.1.clone()))).collect())
             } else {
                 Shape::Struct(n, v)
             }
@@ -881,6 +891,75 @@ fn mutate_shape(r: &mut Rng, s: &Shape) -> Shape {
         other => Shape::Opt(Box::new(other.clone())),
     }
 }
+
+/// cross-shape anchors (serialise with the first shape, deserialise with the second): the error and
+/// leniency branches of the deserializer
+const X_ANCHORS: &[&str] = &[
+    "struct T 2 a u8 b u8 ; L 2 i1 i2 ; enum E 2 a vn u8 b vn u8",
+    "struct T 1 a u8 ; L 1 i1 ; enum E 1 a vn u8",
+    "struct T 0 ; L 0 ; enum E 1 a vu",
+    "str ; s41 ; enum E 1 A vn u8",
+    "str ; s41 ; enum E 1 A vt 0",
+    "str ; s41 ; enum E 1 A vs 0",
+    "str ; s42 ; enum E 1 A vu",
+    "enum E 1 A vn u8 ; V 0 i1 ; enum E 1 A vu",
+    "enum E 1 A vn unit ; V 0 U ; enum E 1 A vu",
+    "enum E 1 A vn u8 ; V 0 i1 ; enum E 1 A vt 1 u8",
+    "enum E 1 A vn u8 ; V 0 i1 ; enum E 1 A vs 1 a u8",
+    "enum E 1 A vt 2 u8 u8 ; V 0 L 2 i1 i2 ; enum E 1 A vn tup 2 u8 u8",
+    "enum E 1 A vn tup 2 u8 u8 ; V 0 L 2 i1 i2 ; enum E 1 A vt 2 u8 u8",
+    "enum E 1 A vs 1 a u8 ; V 0 L 1 i1 ; enum E 1 A vn map str u8",
+    "enum E 1 A vn map str u8 ; V 0 M 1 s61 i1 ; enum E 1 A vs 1 a u8",
+    "enum E 2 A vu B vu ; V 1 U ; enum E 2 B vu A vu",
+    "enum E 1 A vt 2 u8 u8 ; V 0 L 2 i1 i2 ; enum E 1 A vt 1 u8",
+    "enum E 1 A vt 2 u8 u8 ; V 0 L 2 i1 i2 ; enum E 1 A vt 3 u8 u8 u8",
+    "enum E 1 A vt 2 u8 u8 ; V 0 L 2 i1 i2 ; enum E 1 A vt 0",
+    "enum E 1 A vs 2 a u8 b u8 ; V 0 L 2 i1 i2 ; enum E 1 A vs 1 a u8",
+    "enum E 1 A vs 1 a u8 ; V 0 L 1 i1 ; enum E 1 A vs 2 a u8 b opt u8",
+    "enum E 1 A vs 1 a u8 ; V 0 L 1 i1 ; enum E 1 A vs 2 a u8 b u8",
+    "enum E 1 A vu ; V 0 U ; str",
+    "tup 2 u8 u8 ; L 2 i1 i2 ; tup 1 u8",
+    "tup 2 u8 u8 ; L 2 i1 i2 ; tup 3 u8 u8 u8",
+    "seq u8 ; L 0 ; tup 1 u8",
+    "seq u8 ; L 2 i1 i2 ; tstruct T 2 u8 u8",
+    "opt u8 ; N ; u8",
+    "unit ; U ; opt u8",
+    "unit ; U ; ustruct T",
+    "unit ; U ; str",
+    "u16 ; i300 ; u8",
+    "i8 ; i-1 ; u8",
+    "u8 ; i5 ; i8",
+    "u64 ; i18446744073709551615 ; i64",
+    "i64 ; i-1 ; u64",
+    "str ; s6162 ; char",
+    "str ; s61 ; char",
+    "str ; s ; char",
+    "char ; c97 ; str",
+    "bool ; T ; u8",
+    "u8 ; i1 ; bool",
+    "f64 ; d4607182418800017408 ; f32",
+    "f64 ; d4591870180066957722 ; f32",
+    "f64 ; d9218868437227405311 ; f32",
+    "f64 ; d1 ; f32",
+    "f64 ; d3936146074321813504 ; f32",
+    "f64 ; d3931642474694443008 ; f32",
+    "f64 ; d3931642474694443009 ; f32",
+    "f64 ; d5183643170566569984 ; f32",
+    "f64 ; d5183643171103440895 ; f32",
+    "f64 ; d5183643170835005440 ; f32",
+    "map str u8 ; M 1 s61 i1 ; struct T 1 a u8",
+    "map str u8 ; M 0 ; struct T 1 a opt u8",
+    "map str u8 ; M 0 ; struct T 1 a u8",
+    "map str u8 ; M 2 s61 i1 s7a i2 ; struct T 1 a u8",
+    "map u8 u8 ; M 1 i0 i1 ; struct T 1 a u8",
+    "tstruct T 2 u8 u8 ; L 2 i1 i2 ; struct T 2 a u8 b u8",
+    "struct T 2 a u8 b u8 ; L 2 i1 i2 ; struct T 2 b u8 a u8",
+    "struct T 2 a u8 b u8 ; L 2 i1 i2 ; map str u8",
+    "struct T 2 a u8 b u8 ; L 2 i1 i2 ; seq u8",
+    "seq u8 ; L 2 i1 i2 ; map u8 u8",
+    "bytes ; y0102 ; seq u8",
+    "nstruct T u8 ; i1 ; nstruct W u8",
+];
 
 /// hand-picked anchors: every constructor and the classic trouble spots
 const ANCHORS: &[&str] = &[
